@@ -74,15 +74,8 @@ theorem steps_fuel_irrel (f g m : Nat) (hf : m ≤ f) (hg : m ≤ g) : steps f m
   · obtain ⟨d, rfl⟩ := Nat.exists_eq_add_of_le h; exact key d f hf
   · obtain ⟨d, rfl⟩ := Nat.exists_eq_add_of_le h; exact (key d g hg).symm
 
-theorem steps_left_le : ∀ (f m : Nat), m ≤ f → 2 ≤ m → steps f (m / 2) ≤ steps f (m - m / 2) := by
-  -- the right branch is the longer one; proved through the closed bound only where needed, so stated via monotonicity
-  intro f
-  induction f with
-  | zero => intro m h h2; omega
-  | succ f ih =>
-    intro m h h2
-    -- monotonicity of `steps` in the window size
-    have mono : ∀ (g a b : Nat), a ≤ b → b ≤ g → steps g a ≤ steps g b := by
+/-- monotonicity of `steps` in the window size -/
+theorem steps_mono : ∀ (g a b : Nat), a ≤ b → b ≤ g → steps g a ≤ steps g b := by
       intro g
       induction g with
       | zero => intro a b hab hb; have : a = 0 := by omega
@@ -104,7 +97,10 @@ theorem steps_left_le : ∀ (f m : Nat), m ≤ f → 2 ≤ m → steps f (m / 2)
             simp only [ha0, ha1, hb0, hb1, if_false]
             have := ihg (a - a / 2) (b - b / 2) (by omega) (by omega)
             omega
-    exact mono (f + 1) (m / 2) (m - m / 2) (by omega) (by omega)
+
+/-- the right branch is the longer one -/
+theorem steps_left_le (f m : Nat) (h : m - m / 2 ≤ f) : steps f (m / 2) ≤ steps f (m - m / 2) :=
+  steps_mono f (m / 2) (m - m / 2) (by omega) h
 
 theorem bsearchLoop_spec (f : α → Int) (ctx n : Nat) :
     ∀ (fuel : Nat) (s : St α) (b m : Nat), m ≤ fuel → b + m ≤ n → n ≤ s.a.size → Partitioned f s.a n →
@@ -193,7 +189,7 @@ theorem bsearchLoop_spec (f : α → Int) (ctx n : Nat) :
               · have := hpost.mono; simp [e3]; omega
             · intro fu hfu
               have h1 := hpost.cnt fu (by omega)
-              have hle := steps_left_le fu m hfu (by omega)
+              have hle := steps_left_le fu m (by omega)
               have : steps fu m = 1 + steps (fu - 1) (m - m / 2) := by
                 cases fu with
                 | zero => omega
@@ -233,5 +229,72 @@ theorem bsearchLoop_spec (f : α → Int) (ctx n : Nat) :
               have := hpost.mono
               omega
             · intro hn' j h hj; have := hnone hn' j (by rw [ha1]; exact h) hj; simpa only [ha1] using this
+
+end SafeC.Sort
+
+namespace SafeC.Sort
+
+/-- EVERY comparator (inconsistent ones included): the loop returns, probes only positions of its window,
+    makes at most `steps` probes and leaves the array alone -/
+theorem bsearchLoop_any (c : BCmp α) :
+    ∀ (fuel : Nat) (s : St α) (b m : Nat), m ≤ fuel → b + m ≤ s.a.size →
+      ∃ r, bsearchLoop c fuel s b m = .ok r ∧ r.2.a = s.a ∧ s.ncmp ≤ r.2.ncmp ∧ r.2.ncmp - s.ncmp ≤ steps fuel m ∧
+        (∀ j, r.1 = some j → b ≤ j ∧ j < b + m) ∧
+        ∃ l, r.2.log = l ++ s.log ∧ ∀ ev ∈ l, b ≤ ev.i ∧ ev.i < b + m ∧ ev.j = ev.i ∧ ev.ctx = c.ctx := by
+  intro fuel
+  induction fuel with
+  | zero =>
+    intro s b m hm hb
+    have : m = 0 := by omega
+    subst this
+    exact ⟨(none, s), by simp [bsearchLoop], rfl, Nat.le_refl _, by simp, by simp, [], by simp⟩
+  | succ fuel ih =>
+    intro s b m hm hb
+    unfold bsearchLoop
+    by_cases hm0 : m = 0
+    · subst hm0
+      exact ⟨(none, s), by simp, rfl, Nat.le_refl _, by simp, by simp, [], by simp⟩
+    · have hi : b + m / 2 < s.a.size := by omega
+      simp only [hm0, if_false]
+      unfold probe
+      simp only [hi, dite_true, bind, Except.bind]
+      generalize hs1 : ({ s with log := if c.trace then ⟨b + m / 2, b + m / 2, c.ctx⟩ :: s.log else s.log, ncmp := s.ncmp + 1 } : St α) = s1
+      have ha1 : s1.a = s.a := by subst hs1; rfl
+      have hn1 : s1.ncmp = s.ncmp + 1 := by subst hs1; rfl
+      have hl1 : ∃ l, s1.log = l ++ s.log ∧ ∀ ev ∈ l, b ≤ ev.i ∧ ev.i < b + m ∧ ev.j = ev.i ∧ ev.ctx = c.ctx := by
+        subst hs1
+        by_cases ht : c.trace
+        · exact ⟨[⟨b + m / 2, b + m / 2, c.ctx⟩], by simp [ht], by intro ev hev; simp at hev; subst hev; simp; omega⟩
+        · exact ⟨[], by simp [ht], by simp⟩
+      have hst : 1 ≤ steps (fuel + 1) m := by unfold steps; simp only [hm0, if_false]; split <;> omega
+      generalize c.cmp s.ncmp (b + m / 2) s.a[b + m / 2] = sign
+      by_cases hz : sign = 0
+      · simp only [hz, if_true]
+        exact ⟨(some (b + m / 2), s1), rfl, ha1, by simp [hn1], by simp [hn1]; exact hst, by intro j hj; simp at hj; omega, hl1⟩
+      · simp only [hz, if_false]
+        by_cases hm1 : m = 1
+        · subst hm1
+          simp only [if_true]
+          exact ⟨(none, s1), rfl, ha1, by simp [hn1], by simp [hn1]; exact hst, by simp, hl1⟩
+        · simp only [hm1, if_false]
+          have hstep : steps (fuel + 1) m = 1 + steps fuel (m - m / 2) := by simp [steps, hm0, hm1]
+          obtain ⟨l1, el1, pl1⟩ := hl1
+          by_cases hneg : sign < 0
+          · simp only [hneg, if_true]
+            obtain ⟨r, hr, hra, hrm, hrc, hrf, l, el, pl⟩ := ih s1 b (m / 2) (by omega) (by rw [ha1]; omega)
+            refine ⟨r, hr, hra.trans ha1, by omega, ?_, by intro j hj; have := hrf j hj; omega, l ++ l1, by simp [el, el1], ?_⟩
+            · have hle := steps_left_le fuel m (by omega)
+              omega
+            · intro ev hev
+              rcases List.mem_append.mp hev with h | h
+              · have := pl ev h; omega
+              · exact pl1 ev h
+          · simp only [hneg, if_false]
+            obtain ⟨r, hr, hra, hrm, hrc, hrf, l, el, pl⟩ := ih s1 (b + m / 2) (m - m / 2) (by omega) (by rw [ha1]; omega)
+            refine ⟨r, hr, hra.trans ha1, by omega, by omega, by intro j hj; have := hrf j hj; omega, l ++ l1, by simp [el, el1], ?_⟩
+            intro ev hev
+            rcases List.mem_append.mp hev with h | h
+            · have := pl ev h; omega
+            · exact pl1 ev h
 
 end SafeC.Sort
